@@ -471,6 +471,14 @@ def mk_cast(op, ty, a, ty2):
         return mk_cast(a[1], a[2], a[4], ty2)
     if op == "trunc" and a[0] == "cast" and a[1] in ("zext", "sext", "trunc") and b2 and _bits(a[2]) and _bits(a[2]) > b2:
         return mk_cast("trunc", a[2], a[4], ty2)
+    if op == "sext" and b1 and b2 and b2 <= 128 and a[0] == "op" and a[1] == "shl" and is_c(a[4]) and a[4][2] < b1 \
+            and a[3][0] == "cast" and a[3][1] == "zext" and _bits(a[3][2]) and a[4][2] >= b1 - _bits(a[3][2]):
+        # (zext n->m x) << s with every extension bit shifted out is (sext n->m x) << s; when the signed value of x, shifted,
+        # stays inside the m-bit type, sign-extending the result is shifting the sign-extended x
+        x_ = a[3][4]
+        rr = _range(x_)
+        if rr is not None and -(1 << (b1 - 1)) <= (rr[0] << a[4][2]) and (rr[1] << a[4][2]) < (1 << (b1 - 1)):
+            return mk_bin("shl", ty2, mk_cast("sext", a[3][2], x_, ty2), C(b2, a[4][2]))
     if op == "sext" and b1 and b2 and b2 <= 128 and a[0] == "op" and a[1] == "shl" and is_c(a[4]) and a[4][2] < b1:
         # a narrow left shift that cannot overflow (the operand's assumed range, shifted, stays inside the narrow type)
         # is the wide left shift of the extended operand
